@@ -236,3 +236,33 @@ def stable_hash(s):
     import hashlib
 
     return int.from_bytes(hashlib.sha256(s.encode()).digest()[:8], "big")
+
+
+# ---------------------------------------------------------------------------
+# running a function in a `python -O` child (asserts stripped, __debug__ False)
+# ---------------------------------------------------------------------------
+def call_in_child(modname, funcname, payload, optimized=True, timeout=3600):
+    """import `modname` in a fresh interpreter (python -O when optimized) and return funcname(payload).
+
+    payload / result travel pickled through temporary files; a crash is a HarnessError."""
+    import pickle
+    import subprocess
+    import tempfile
+
+    with tempfile.TemporaryDirectory(prefix="mc-child-") as d:
+        pin, pout = os.path.join(d, "in.pkl"), os.path.join(d, "out.pkl")
+        with open(pin, "wb") as fh:
+            pickle.dump(payload, fh)
+        code = (
+            "import pickle,sys,importlib;"
+            "m=importlib.import_module(sys.argv[1]);"
+            "r=getattr(m,sys.argv[2])(pickle.load(open(sys.argv[3],'rb')));"
+            "pickle.dump(r,open(sys.argv[4],'wb'))"
+        )
+        cmd = [sys.executable] + (["-O"] if optimized else []) + ["-c", code, modname, funcname, pin, pout]
+        env = dict(os.environ, PYTHONHASHSEED="0", PASSLIB_BUILTIN_BCRYPT="enabled", PYTHONDONTWRITEBYTECODE="1")
+        r = subprocess.run(cmd, cwd=VERIF, env=env, capture_output=True, text=True, timeout=timeout)
+        if r.returncode != 0 or not os.path.exists(pout):
+            raise HarnessError(f"child {modname}.{funcname} failed rc={r.returncode}: {r.stderr[-3000:]}")
+        with open(pout, "rb") as fh:
+            return pickle.load(fh)
